@@ -199,6 +199,29 @@ def mk_log(arg):
     return LOG(a)
 
 
+def renorm(t, _cache=None):
+    """rebuild a term bottom-up through the normalising constructors (used after substituting definitions)"""
+    cache = {} if _cache is None else _cache
+    i = t.get_id()
+    if i in cache:
+        return cache[i]
+    if not z3.is_app(t) or t.num_args() == 0:
+        cache[i] = t
+        return t
+    kids = [renorm(c, cache) for c in t.children()]
+    if t.decl().eq(LOG):
+        r = mk_log(kids[0])
+    elif t.decl().eq(EXP):
+        r = mk_exp(kids[0])
+    else:
+        if all(k.eq(c) for k, c in zip(kids, t.children())):
+            r = t
+        else:
+            r = t.decl()(*kids)
+    cache[i] = r
+    return r
+
+
 def mk_sqrt(arg):
     a = z3.simplify(arg)
     return SQRT(a)
